@@ -357,6 +357,14 @@ func (v *victim) exec(ctx context.Context, f []string) (string, error) {
 			}
 			opt.TXID = ltx.TXID(n)
 		}
+		if kv(f[2:], "bare", "") != "" {
+			// output path without a directory component, relative to the working directory
+			// (what `litestream restore -o restored.db ...` does)
+			if err := os.Chdir(v.cfg.Dir); err != nil {
+				return "", err
+			}
+			opt.OutputPath = f[1]
+		}
 		rp := v.cfg.RepPath()
 		if sub := kv(f[2:], "rep", ""); sub != "" { // another replica directory under the scenario root (v0.3.x layout)
 			rp = filepath.Join(v.cfg.Dir, sub)
